@@ -390,6 +390,11 @@ class Spec:
             return 'size=%d nodes=%d named=%s' % (len(hs), len(hs), ','.join('n%d' % k for k in named) if named else '-')
         try:
             op, args = self.parse(line)
+            if op == 'xgrow':
+                # an argument appended to an expression list: lists are operands by identity, so no key changes
+                if len(args) != 2: raise IllSorted()
+                self.want(lambda h: h.tag == 'fresh' and h.key[2] == 4, args[0]); self.want(self.is_expr, args[1])
+                return 'ok'
             if op == 'grow':
                 # one more member (name, type) at the end of a growing container.  A node of a unification table that was first made from
                 # this container's live sequence has borrowed it: from now on that table holds a node filed under a key it no longer
@@ -486,13 +491,13 @@ class Gen:
         self.stats[op] = self.stats.get(op, 0) + 1
         if op not in Spec.OBS:
             self.stats['_requests'] = self.stats.get('_requests', 0) + 1
-            if self.spec.created == before and op not in ('builtin', 'const', 'cxx_linkage', 'c_linkage', 'cxx_transfer', 'grow'):
+            if self.spec.created == before and op not in ('builtin', 'const', 'cxx_linkage', 'c_linkage', 'cxx_transfer', 'grow', 'xgrow'):
                 self.stats['_hits'] = self.stats.get('_hits', 0) + 1
         h = None
         if out.startswith('n'):
             h = self.spec.names[int(out[1:])]
             self.classify(h)
-        if remember and op not in Spec.OBS and op not in ('fresh', 'placed', 'grow', 'unit', 'builtin', 'const', 'cxx_linkage', 'c_linkage', 'cxx_transfer'):
+        if remember and op not in Spec.OBS and op not in ('fresh', 'placed', 'grow', 'xgrow', 'unit', 'builtin', 'const', 'cxx_linkage', 'c_linkage', 'cxx_transfer'):
             self.requests.append((op, list(args)))
         return h
 
@@ -1111,8 +1116,16 @@ def lookalike_operand_sweep(g, rounds):
             asked += [('array', [t, x]), ('as_type_expr', [x])]
             if pr is not None and 'function_e' in g.WEIGHTS[g.profile]: asked.append(('function_e', [pr, t, x]))
         for op, a in asked: g.emit(op, a)
+        # the expression lists grow AFTER they have named template-ids (arguments are pushed as they are parsed), to different lengths
+        for k, x in enumerate(xl):
+            for _ in range(k + rng.randint(0, 2)):
+                g.emit('xgrow', [x, P('expr')], False)
         rng.shuffle(asked)
         for op, a in asked: g.emit(op, a, False)
+        for x in xl[:2]:
+            g.emit('xgrow', [x, P('expr')], False)
+        for op, a in asked:
+            if op == 'template_id': g.emit(op, a, False)
         g.stats['_lookalike_operands'] = g.stats.get('_lookalike_operands', 0) + len(asked)
 
 
